@@ -519,7 +519,7 @@ func c02Prop(t *rapid.T) {
 }
 
 func TestC02(t *testing.T) {
-	evid.Extra("rule", "C02: rapid-generated histories (1..6 operations quick, 1..10 thorough) of install/upgrade/rollback/uninstall over charts whose resource sets (1-4 of 8 pool resources of 5 kinds, content variant, helm.sh/resource-policy in {absent, keep, ' Keep ', other}) grow, shrink and change - a resource may name a namespace of its own, and one object is of a kind the cluster serves under two API versions (HorizontalPodAutoscaler autoscaling/v1 and /v2) between which charts move -, interleaved with out-of-band actions on live objects (edit a field the manifest specifies, add a foreign label/data key, set or remove the keep annotation, delete the object) and with bystander objects present (unrelated name, same name in another namespace, same name of another kind, objects owned by another release); one operation in six (uninstalls: one in three, with fault positions taken from the requests an uninstall really makes, and retried afterwards in two cases out of three) carries a cluster-side fault and is not judged itself. After every fault-free successful operation whose requests were all accepted: (a) manifest is a sub-object of live for every resource of the new manifest, (b) resources of the previously deployed manifest that the new one drops are gone unless the live object carried exactly the keep policy, in which case they must remain, (c) bystanders are byte-identical and every accepted write targets an object named by a manifest or hook of the release; after uninstall: everything of the latest manifest is gone except manifest-declared keep resources, which are unchanged and listed in the response. Non-trivial = a judged successful operation that both created and deleted a manifest resource, or followed an out-of-band action, or involved a resource-policy annotation; distinct by the full step sequence.")
+	evid.Extra("rule", "C02: rapid-generated histories (1..6 operations quick, 1..10 thorough) of install/upgrade/rollback/uninstall over charts whose resource sets (1-4 of 8 pool resources of 5 kinds, content variant, helm.sh/resource-policy in {absent, keep, ' Keep ', other}) grow, shrink and change (one upgrade in ten moves to a chart that renders nothing at all) - a resource may name a namespace of its own, and one object is of a kind the cluster serves under two API versions (HorizontalPodAutoscaler autoscaling/v1 and /v2) between which charts move -, interleaved with out-of-band actions on live objects (edit a field the manifest specifies, add a foreign label/data key, set or remove the keep annotation, delete the object) and with bystander objects present (unrelated name, same name in another namespace, same name of another kind, objects owned by another release); one operation in six (uninstalls: one in three, with fault positions taken from the requests an uninstall really makes, and retried afterwards in two cases out of three) carries a cluster-side fault and is not judged itself. After every fault-free successful operation whose requests were all accepted: (a) manifest is a sub-object of live for every resource of the new manifest, (b) resources of the previously deployed manifest that the new one drops are gone unless the live object carried exactly the keep policy, in which case they must remain, (c) bystanders are byte-identical and every accepted write targets an object named by a manifest or hook of the release; after uninstall: everything of the latest manifest is gone except manifest-declared keep resources, which are unchanged and listed in the response. Non-trivial = a judged successful operation that both created and deleted a manifest resource, or followed an out-of-band action, or involved a resource-policy annotation; distinct by the full step sequence.")
 	evid.Extra("assumptions", []string{
 		"API-server simulator: existence and content only (no defaulting, admission, finalizers, garbage collection)",
 		"built-in kinds only (ConfigMap, Secret, ServiceAccount, Service, Deployment): Helm's strategic three-way merge path; custom resources are not generated",
